@@ -11,16 +11,18 @@ CONSTANTS BindRead,    \* require the logged result of bug.Read to be the specif
           BindClock    \* require the logged clock values to be the specification's (C05)
 
 VARIABLES l,        \* next line of the trace
+          pend,     \* bugs the MergeAll in progress still has to report on
+
           digests   \* history: operation order -> digest of the compiled snapshot first observed for it
 
 Trace == ndJsonDeserialize(IOEnv.TRACE)
 
-tvars == <<commits, nops, ref, trk, hub, clk, res, l, digests>>
+tvars == <<commits, nops, ref, trk, hub, clk, res, l, digests, pend>>
 
 ev == Trace[l]
 IsEv(name) == l <= Len(Trace) /\ ev.ev = name /\ l' = l + 1
 
-TraceInit == Init /\ l = 1 /\ digests = <<>>
+TraceInit == Init /\ l = 1 /\ digests = <<>> /\ pend = {}
 
 (* ranks of the commits an action creates come from the log (order of the real pack ids) *)
 RkOf(e) == [i \in 1..(Len(commits) + 3) |->
@@ -53,12 +55,13 @@ Reset ==
   /\ hub' = [b \in Bugs |-> 0]
   /\ clk' = [r \in Replica |-> [e |-> 1, c |-> 1, de |-> 1, dc |-> 1]]
   /\ res' = NoRes
-  /\ digests' = <<>>
+  /\ digests' = <<>> /\ pend' = {}
 
-TNewBug == IsEv("NewBug") /\ ev.err = "" /\ NewBug(ev.r, ev.runs, RkOf(ev)) /\ ev.b = res'.b /\ StateMatches(ev) /\ UNCHANGED digests
-TEdit   == IsEv("Edit") /\ ev.err = "" /\ Edit(ev.r, ev.b, ev.runs, RkOf(ev)) /\ StateMatches(ev) /\ UNCHANGED digests
+TNewBug == pend = {} /\ UNCHANGED pend /\ IsEv("NewBug") /\ ev.err = "" /\ NewBug(ev.r, ev.runs, RkOf(ev)) /\ ev.b = res'.b /\ StateMatches(ev) /\ UNCHANGED digests
+TEdit   == pend = {} /\ UNCHANGED pend /\ IsEv("Edit") /\ ev.err = "" /\ Edit(ev.r, ev.b, ev.runs, RkOf(ev)) /\ StateMatches(ev) /\ UNCHANGED digests
 
 TRead ==
+  /\ pend = {} /\ UNCHANGED pend
   /\ IsEv("Read")
   /\ Read(ev.r, ev.b)
   /\ BindRead => (res'.ok = ev.ok /\ res'.ops = ev.returned)
@@ -70,13 +73,23 @@ TRead ==
           ELSE digests' = Append(digests, [ops |-> ev.returned, snap |-> ev.snap])
      ELSE UNCHANGED digests
 
-TPush  == IsEv("Push") /\ Push(ev.r) /\ res'.ok = ev.ok /\ StateMatches(ev) /\ UNCHANGED digests
-TFetch == IsEv("Fetch") /\ ev.err = "" /\ Fetch(ev.r) /\ StateMatches(ev) /\ UNCHANGED digests
+TPush  == pend = {} /\ UNCHANGED pend /\ IsEv("Push") /\ Push(ev.r) /\ res'.ok = ev.ok /\ StateMatches(ev) /\ UNCHANGED digests
+TFetch == pend = {} /\ UNCHANGED pend /\ IsEv("Fetch") /\ ev.err = "" /\ Fetch(ev.r) /\ StateMatches(ev) /\ UNCHANGED digests
 
 (* Merge events of one MergeAll are logged with the state after the whole MergeAll: refs of other bugs may still
    change, so only this bug's refs are bound here (and everything on the final event). *)
+(* MergeAll reports on every remote-tracking bug: one Merge event each, between MergeAllBegin and MergeAllEnd *)
+TMergeBegin ==
+  /\ IsEv("MergeAllBegin") /\ pend = {}
+  /\ pend' = {b \in Bugs : trk[ev.r][b] # 0}
+  /\ UNCHANGED <<commits, nops, ref, trk, hub, clk, res, digests>>
+TMergeEnd ==
+  /\ IsEv("MergeAllEnd") /\ pend = {}
+  /\ UNCHANGED <<commits, nops, ref, trk, hub, clk, res, digests, pend>>
+
 TMerge ==
   /\ IsEv("Merge")
+  /\ ev.b \in pend /\ pend' = pend \ {ev.b}
   /\ \E au \in Author : Merge(ev.r, ev.b, au, RkOf(ev))
   /\ BindMerge => (res'.status = ev.status /\ res'.ops = ev.returned)
   /\ commits' = commits \o ev.new
@@ -86,15 +99,15 @@ TMerge ==
   /\ UNCHANGED digests
 
 TMergeNone ==
-  /\ IsEv("MergeNone")
+  /\ IsEv("MergeNone") /\ UNCHANGED pend
   /\ \A b \in Bugs : trk[ev.r][b] = 0
   /\ UNCHANGED <<commits, nops, ref, trk, hub, clk, digests>>
   /\ res' = NoRes
 
-TReopen == IsEv("Reopen") /\ ev.err = "" /\ Reopen(ev.r, ev.loaders) /\ StateMatches(ev) /\ UNCHANGED digests
-TDeleteClocks == IsEv("DeleteClocks") /\ DeleteClocks(ev.r) /\ StateMatches(ev) /\ UNCHANGED digests
+TReopen == pend = {} /\ UNCHANGED pend /\ IsEv("Reopen") /\ ev.err = "" /\ Reopen(ev.r, ev.loaders) /\ StateMatches(ev) /\ UNCHANGED digests
+TDeleteClocks == pend = {} /\ UNCHANGED pend /\ IsEv("DeleteClocks") /\ DeleteClocks(ev.r) /\ StateMatches(ev) /\ UNCHANGED digests
 
-TraceNext == Reset \/ TNewBug \/ TEdit \/ TRead \/ TPush \/ TFetch \/ TMerge \/ TMergeNone \/ TReopen \/ TDeleteClocks
+TraceNext == TMergeBegin \/ TMergeEnd \/ Reset \/ TNewBug \/ TEdit \/ TRead \/ TPush \/ TFetch \/ TMerge \/ TMergeNone \/ TReopen \/ TDeleteClocks
 
 TraceSpec == TraceInit /\ [][TraceNext]_tvars
 
